@@ -78,6 +78,32 @@ REGION5 = {
     'C19': "the IO methods of PaneBase in pane/classes.py (from_json / from_yaml / from_jsons / from_yamls / write_json / write_yaml and how they pass options on) and into_data / from_data in pane/convert.py as used by pane/io.py",
     'C20': "the uses of rename styles in pane/classes.py (PaneOptions in_rename / out_rename, tuple-valued in_rename, PaneBase.dict(rename=)) and in FieldSpec.make_field (pane/field.py)",
 }
+# round 6: the break must come about where two features of the library meet
+PAIRS6 = {
+    'C01': "generic dataclasses (G[int], fields typed by a type variable) x containers of them; and Literal / Enum types x mapping keys and set elements",
+    'C02': "unions x containers (Union[List[int], str], Optional[Dict[...]]); and conditions (Annotated[T, cond]) x the scalar kinds they wrap",
+    'C03': "tagged unions x conditions; dataclasses x unions (a dataclass as a union member, a union-typed field); ValueOrList / Range helper types x everything",
+    'C04': "custom handlers (custom=, register_converter_handler, the `_converter` protocol) x bad data; generic dataclasses x bad data; from_yaml / from_json x types whose construction can fail",
+    'C05': "tagged unions x renaming / aliases / layouts of their variants; numpy arrays x containers and dataclass fields; Decimal / Fraction / datetime / path values x mapping keys",
+    'C06': "dataclass instances nested in containers x layouts (tuple out_format, kw_only fields); values of subclasses (of a dataclass, of int/str) x the declared base type; Counter / defaultdict / deque values",
+    'C07': "dataclass fields x nested containers (a bad element three levels down); unions x dataclasses (member trees); conditions x containers; tuple layout x unions",
+    'C08': "very long / nested / non-ASCII / multi-line offending values x every node type; causes (exceptions raised by conditions, constructors, __post_init__) x nesting in unions and products",
+    'C09': "custom handlers (user converters that receive the caller's objects) x containers; dataclass constructor x mutable arguments (lists, dicts, arrays, other instances); unions x tagged unions",
+    'C10': "custom handlers x the converter cache (same type, different handlers; same handlers object edited; handler identity vs equality); generic dataclasses x the cache; threads x first use of a type",
+    'C11': "unions x conditions (a conditioned member, a condition on the whole union); unions x dataclasses with overlapping layouts; unions x custom handlers; unions nested in unions through type aliases / Annotated",
+    'C12': "tagged unions x inheritance (variants sharing a base, a variant subclassing another); tagged unions x renaming of the tag field (rename styles, aliases, out_name); tagged unions inside containers and Optional",
+    'C13': "conditions x unions / Optional (condition on a union, union of conditioned members); conditions x dataclass fields with defaults; conditions x custom handlers; conditions x numpy arrays",
+    'C14': "default factories x inheritance and generics; the set-field record x copy / replace / nested dataclasses; __post_init__ x inheritance; constructor x keyword-only and positional mixing",
+    'C15': "aliases x rename styles x inheritance (a subclass re-declaring a field); tuple layout x defaults x keyword-only; allow_extra x duplicates; layouts x nested dataclasses",
+    'C16': "equality / ordering / hashing x inheritance (subclass vs base instances, added fields); x generic parametrisations; x fields holding unhashable or NaN values; frozen x __post_init__",
+    'C17': "generics x tagged unions / unions of generic classes; inheritance x field options (aliases, converter=, exclude, init=False redeclared); generic re-parameterisation x class options",
+    'C18': "custom handlers x generic dataclasses; x ValueOrList / helper types; x enum / Literal / conditions; x into_data of inferred types (Any, bare containers); x inheritance of the class-level `custom`",
+    'C19': "IO options x dataclass methods vs module functions; from_yaml_all x unions / Optional / dataclasses; custom handlers x IO; unusual but legal YAML/JSON text (anchors, flow collections, exponents, unicode escapes) x typed reading",
+    'C20': "rename styles x inheritance; x tagged unions (the tag field's name); x aliases and explicit names; x dict(set_only=..., rename=...); x nested dataclasses with different styles",
+}
+FOCUS[6] = ("it arises where TWO features of the library meet - each works on its own, the combination is what breaks (under the change). "
+            "Feature combinations to aim at for this task: {region}. Read how the two sides talk to each other (which object is passed, which option is "
+            "forwarded or forgotten, which cache or key is shared) and break that seam; every one of your three changes must need such a combination to show.")
 FOCUS[4] = ("it lives in the region of the library named below and shows only under a narrow circumstance that a real user could still hit "
             "(one pass or one direction only, one member of a family, a second call, an unusual but legal input or option combination). "
             "REGION for this task: {region}. All three changes must be made inside that region; read it closely first and look for behaviour that the "
@@ -108,7 +134,7 @@ The behavioural property under study (this is all you get; read the library's co
 Your task: produce THREE different source changes to the library (files under {wt}/pane/), each of which
   (a) still imports/compiles and leaves all 218 passing tests passing,
   (b) BREAKS the property above (a user relying on the property would be wrong for some inputs), and
-  (c) is SUBTLE: {FOCUS[4].replace('{region}', (REGION if rnd == 4 else REGION5).get(pid, 'anywhere')) if rnd in (4, 5) else FOCUS[rnd]} Prefer breaks that a reviewer skimming the diff would wave through (a plausible refactor, micro-optimisation, "simplification", defensive check, caching, or a fix for some other imagined problem). Avoid the most obvious edits (flipping a comparison in the main path, deleting a whole check that every input exercises). The three changes must touch different mechanisms (different functions / code paths). Keep each change small (typically 1-15 lines).
+  (c) is SUBTLE: {FOCUS[4].replace('{region}', (REGION if rnd == 4 else REGION5).get(pid, 'anywhere')) if rnd in (4, 5) else (FOCUS[6].replace('{region}', PAIRS6[pid]) if rnd == 6 else FOCUS[rnd])} Prefer breaks that a reviewer skimming the diff would wave through (a plausible refactor, micro-optimisation, "simplification", defensive check, caching, or a fix for some other imagined problem). Avoid the most obvious edits (flipping a comparison in the main path, deleting a whole check that every input exercises). The three changes must touch different mechanisms (different functions / code paths). Keep each change small (typically 1-15 lines).
 
 For each change k in 1, 2, 3 write into {out}/k/ :
   - patch.diff : output of `git -C {wt} diff` for that change alone (it must apply with `git apply` to a clean checkout of HEAD),
